@@ -70,7 +70,7 @@ fs.writeFileSync(process.argv[3], JSON.stringify(out));
 
 def _fix_nums(n):
     if isinstance(n, list):
-        if len(n) == 2 and n[0] == "n" and not isinstance(n[1], str):
+        if len(n) == 2 and n[0] == "n" and isinstance(n[1], (int, float)) and not isinstance(n[1], bool):
             return ["n", P.numkey(float(n[1]))]
         return [_fix_nums(x) for x in n]
     if isinstance(n, dict):
